@@ -358,6 +358,47 @@ def r6(ctx, facts):
     r.instance("derived-batches", True, "Batch::new_from callers: %s" % derives, nontrivial=False)
 
 
+def r7(ctx, facts):
+    """a timestamp the caller set on a statement is the caller's: the driver copies statement configurations around (prepare,
+    cache, derived batches) but never writes the field itself. Only the three public setters store into a `timestamp` field, they
+    store their argument, and no driver code calls them (seed C18-k: `Session::prepare` cleared it on the handle it returns)."""
+    r = ctx.rule("R7", "the driver never overwrites a statement's explicit timestamp: the setters store their argument and are not called from driver code", floor=4)
+    n = 0
+    for body in facts.bodies.mentioning('"timestamp"'):
+        if body.crate != "scylla" or "::promoted[" in body.path:
+            continue
+        for bb in sorted(body.live_blocks):
+            for st in body.stmts(bb):
+                if not (st[0] == "A" and st[1][1]):
+                    continue
+                fs = [e for e in st[1][1] if isinstance(e, list) and e[0] == "f"]
+                if not fs or fs[-1][2] != "timestamp":
+                    continue
+                root_ty = body.local_ty(st[1][0])
+                if not any(x in root_ty for x in ("statement::", "StatementConfig")):
+                    continue
+                n += 1
+                op = st[2][1] if st[2][0] == "use" else None
+                src = op[1][0] if op is not None and op[0] in ("c", "m") and not op[1][1] else None
+                hops = 0
+                while src is not None and src > body.argc and hops < 4:
+                    d = body.single_def(src)
+                    if d and d[0] == "stmt" and d[3][0] == "use" and d[3][1][0] in ("c", "m") and not d[3][1][1][1]:
+                        src, hops = d[3][1][1][0], hops + 1
+                    else:
+                        break
+                is_param = src is not None and 1 <= src <= body.argc
+                copies = op is not None and op[0] in ("c", "m") and any(isinstance(e, list) and e[0] == "f" and e[2] == "timestamp" for e in op[1][1])
+                r.instance("timestamp-store:" + fn_short(body.path), is_param or copies,
+                           "a statement's `timestamp` is assigned something that is neither the caller's argument nor a copy of another statement's timestamp", body.stmt_span(st))
+    for p in ("scylla::statement::prepared::PreparedStatement::set_timestamp", "scylla::statement::unprepared::Statement::set_timestamp", "scylla::statement::batch::Batch::set_timestamp"):
+        cs = callers_keys(facts, p)
+        r.instance("no-driver-caller:" + p.split("::")[-2], not cs,
+                   "%s is called from %s: the driver replaces (or clears) a timestamp its caller set explicitly; the frame then carries the generator's value" % (p.split("::", 2)[-1], cs), None)
+    if n < 3:
+        raise AnchorLost("expected the three set_timestamp setters, found %d stores into a statement's `timestamp`" % n)
+
+
 def callee_self(b, c):
     sti = c.callee.get("self_ty")
     return b.ty(sti) if sti is not None else ""
@@ -365,7 +406,7 @@ def callee_self(b, c):
 
 def check(ctx):
     facts = inline_view(ctx.facts("default"))
-    for fn in (r1_r2, r3, r5, r6):
+    for fn in (r1_r2, r3, r5, r6, r7):
         try:
             fn(ctx, facts)
         except AnchorLost as ex:
